@@ -137,3 +137,31 @@ Definition ok_sami (caps : list (Q * Q)) (obs : list (str * bool)) : bool :=
   | Some l => ok_sami_ms caps l
   | None => false
   end.
+
+(* ---- WebVTT layout groups, from the statement: "WebVTT may split a caption whose nodes carry different
+   layouts into several cues with the same times": a new cue starts at a text node whose layout differs
+   from the (present) layout of the text node before it ---------------------------------------------- *)
+From PV Require Import model.TimeWrite.
+
+Definition text_layouts (nodes : list vnode) : list (option Z) :=
+  flat_map (fun n => match n with VText l => [l] | _ => [] end) nodes.
+
+Fixpoint layout_changes (prev : option Z) (ls : list (option Z)) : nat :=
+  match ls with
+  | [] => O
+  | l :: t => (match prev with
+               | Some c => if opt_z_eqb l (Some c) then O else 1%nat
+               | None => O
+               end + layout_changes l t)%nat
+  end.
+
+Definition shows_something (nodes : list vnode) : bool :=
+  existsb (fun n => match n with VText _ => true | VStyle e => e | VBreak => true end) nodes.
+
+Definition spec_groups (nodes : list vnode) : nat :=
+  if shows_something nodes then S (layout_changes None (text_layouts nodes)) else O.
+
+(* times inside the writers' domain *)
+Definition time_ok (t : Q) : bool := Qle_bool 0 t && (0 <=? TimeWrite.rhe t) && (TimeWrite.rhe t <? 86400000000).
+Definition caps_time_ok (caps : list caption) : bool :=
+  forallb (fun c => time_ok (c_start c) && time_ok (c_end c)) caps.
